@@ -265,11 +265,26 @@ theorem C09_pickle_lossless (e : Env) (s : Str) (u : Url) :
 
 /-! ### the guard holds for syntactically valid authorities -/
 
-/-- a user that contains at least one real character (any text that is not made of lone surrogates only) -/
+/-- a user that contains at least one real character (any text that is not made of lone surrogates only)
+    does not requote to "".  Since commit 2fdb38c `GoodNp` asks this only of the user in front of an EMPTY
+    host (`C09_good_user_written`); for every other authority "the user is a Python string" is enough. -/
 theorem C09_good_user (e : Env) (u : Option Str)
     (h : ∀ s, u = some s → PyStr s ∧ ∃ c ∈ s, isSurrogate c = false) :
     ∀ s, u = some s → PyStr s ∧ q e Gen.REQUOTER s ≠ [] :=
   fun s hs => ⟨(h s hs).1, requoter_ne_nil e s (h s hs).1 (h s hs).2⟩
+
+/-- the first disjunct of the empty-host clause of `GoodNp`: a user with one real character is written -/
+theorem C09_good_user_written (e : Env) (u : Option Str) (s : Str) (hu : u = some s) (hs : PyStr s)
+    (hx : ∃ c ∈ s, isSurrogate c = false) : ∃ s, u = some s ∧ q e Gen.REQUOTER s ≠ [] :=
+  ⟨s, hu, requoter_ne_nil e s hs hx⟩
+
+/-- the guard as it was before commit 2fdb38c -/
+def GoodAuthorityOld (e : Env) (s : Str) : Prop :=
+  ∀ pt np, splitUrl e.o s = .ok pt → splitNetloc e.o pt.netloc = .ok np → GoodNpOld e np
+
+/-- the new guard is weaker than the old one (strictly: `C09_surrogate_user_now_agrees`) -/
+theorem C09_good_authority_of_old (e : Env) (s : Str) (h : GoodAuthorityOld e s) : GoodAuthority e s :=
+  fun pt np h1 h2 => goodNp_of_old (h pt np h1 h2)
 
 /-- non-empty ASCII host without ':' '[' ']' (a reg-name in any case, or an IPv4 literal) -/
 theorem C09_good_host_regname (o : Oracles) (h0 : Str) (hne : h0 ≠ []) (ha : isAscii h0 = true)
@@ -325,11 +340,11 @@ theorem C09_eager_eq_lazy_regname (e : Env) (s : Str) (u : Url) (p : NetPre) (pt
     (h0 : Str) :
     encodeUrl e s = .ok u → u.pre = some p → splitUrl e.o s = .ok pt → splitNetloc e.o pt.netloc = .ok np →
     np.host = some h0 → isAscii h0 = true → 58 ∉ h0 → 91 ∉ h0 → 93 ∉ h0 →
-    (∀ x, np.user = some x → PyStr x ∧ ∃ c ∈ x, isSurrogate c = false) →
+    (∀ x, np.user = some x → PyStr x) →
     lazyNet e (pickleTwin u) = .ok p := by
   intro h hpre h1 h2 hh ha h58 h91 h93 hu
   have hne := ((splitNetloc_shape _ _ _ h2).2 h0 hh).1
-  refine C09_eager_eq_lazy e s u p h hpre (C09_good_authority_of e s pt np h1 h2 ⟨C09_good_user e _ hu, ?_⟩)
+  refine C09_eager_eq_lazy e s u p h hpre (C09_good_authority_of e s pt np h1 h2 ⟨hu, ?_⟩)
   rw [hh]
   exact C09_good_host_regname e.o h0 hne ha h58 h91 h93
 
@@ -337,10 +352,10 @@ theorem C09_eager_eq_lazy_ipv4 (e : Env) (s : Str) (u : Url) (p : NetPre) (pt : 
     (h0 : Str) (o4 : List Nat) :
     encodeUrl e s = .ok u → u.pre = some p → splitUrl e.o s = .ok pt → splitNetloc e.o pt.netloc = .ok np →
     np.host = some h0 → parseIPv4 h0 = some o4 →
-    (∀ x, np.user = some x → PyStr x ∧ ∃ c ∈ x, isSurrogate c = false) →
+    (∀ x, np.user = some x → PyStr x) →
     lazyNet e (pickleTwin u) = .ok p := by
   intro h hpre h1 h2 hh h4 hu
-  refine C09_eager_eq_lazy e s u p h hpre (C09_good_authority_of e s pt np h1 h2 ⟨C09_good_user e _ hu, ?_⟩)
+  refine C09_eager_eq_lazy e s u p h hpre (C09_good_authority_of e s pt np h1 h2 ⟨hu, ?_⟩)
   rw [hh]
   exact C09_good_host_ipv4 e.o h0 o4 h4
 
@@ -348,10 +363,10 @@ theorem C09_eager_eq_lazy_ipv6 (e : Env) (s : Str) (u : Url) (p : NetPre) (pt : 
     (h0 : Str) (h8 : List Nat) :
     encodeUrl e s = .ok u → u.pre = some p → splitUrl e.o s = .ok pt → splitNetloc e.o pt.netloc = .ok np →
     np.host = some h0 → parseIPv6 (partition 37 h0).1 = some h8 → 91 ∉ h0 → 93 ∉ h0 →
-    (∀ x, np.user = some x → PyStr x ∧ ∃ c ∈ x, isSurrogate c = false) →
+    (∀ x, np.user = some x → PyStr x) →
     lazyNet e (pickleTwin u) = .ok p := by
   intro h hpre h1 h2 hh h6 h91 h93 hu
-  refine C09_eager_eq_lazy e s u p h hpre (C09_good_authority_of e s pt np h1 h2 ⟨C09_good_user e _ hu, ?_⟩)
+  refine C09_eager_eq_lazy e s u p h hpre (C09_good_authority_of e s pt np h1 h2 ⟨hu, ?_⟩)
   rw [hh]
   exact C09_good_host_ipv6 e.o h0 h8 h6 h91 h93
 
@@ -364,22 +379,30 @@ theorem C09_eager_eq_lazy_bracketed_other (e : Env) (s : Str) (u : Url) (p : Net
     (np : NetlocParts) (h0 : Str) :
     encodeUrl e s = .ok u → u.pre = some p → splitUrl e.o s = .ok pt → splitNetloc e.o pt.netloc = .ok np →
     np.host = some h0 → isAscii h0 = true → 58 ∈ h0 → 91 ∉ h0 →
-    (∀ x, np.user = some x → PyStr x ∧ ∃ c ∈ x, isSurrogate c = false) →
+    (∀ x, np.user = some x → PyStr x) →
     lazyNet e (pickleTwin u) = .ok p := by
   intro h hpre h1 h2 hh ha _ h91 hu
-  refine C09_eager_eq_lazy e s u p h hpre (C09_good_authority_of e s pt np h1 h2 ⟨C09_good_user e _ hu, ?_⟩)
+  refine C09_eager_eq_lazy e s u p h hpre (C09_good_authority_of e s pt np h1 h2 ⟨hu, ?_⟩)
   rw [hh]
   exact C09_good_host_ascii e.o h0 ha h91
 
-/-- the empty-host case ("foo://:80/", "//u@", "//:pw@"): eager '' and lazy '' agree -/
+/-- the empty-host case ("foo://:80/", "//u@", "//:pw@"): eager '' and lazy '' agree.
+    (The user disjunct asks for one real character: a user of lone surrogates only is not written, see
+    `C09_surrogate_user_empty_host_counterexample`.  The hypotheses follow from the ones this theorem had
+    before commit 2fdb38c, which asked EVERY user to have a real character.) -/
 theorem C09_eager_eq_lazy_empty_host (e : Env) (s : Str) (u : Url) (p : NetPre) (pt : Parts) (np : NetlocParts) :
     encodeUrl e s = .ok u → u.pre = some p → splitUrl e.o s = .ok pt → splitNetloc e.o pt.netloc = .ok np →
-    np.host = none → (np.user ≠ none ∨ np.password ≠ none ∨ np.port ≠ none) →
-    (∀ x, np.user = some x → PyStr x ∧ ∃ c ∈ x, isSurrogate c = false) →
+    np.host = none →
+    ((∃ x, np.user = some x ∧ ∃ c ∈ x, isSurrogate c = false) ∨ np.password ≠ none ∨ np.port ≠ none) →
+    (∀ x, np.user = some x → PyStr x) →
     lazyNet e (pickleTwin u) = .ok p ∧ p.rawHost = some [] := by
   intro h hpre h1 h2 hh hor hu
-  have hl := C09_eager_eq_lazy e s u p h hpre (C09_good_authority_of e s pt np h1 h2 ⟨C09_good_user e _ hu, by
-    rw [hh]; exact hor⟩)
+  have hl := C09_eager_eq_lazy e s u p h hpre (C09_good_authority_of e s pt np h1 h2 ⟨hu, by
+    rw [hh]
+    rcases hor with ⟨x, hx, hc⟩ | h | h
+    · exact Or.inl (C09_good_user_written e _ x hx (hu x hx) hc)
+    · exact Or.inr (Or.inl h)
+    · exact Or.inr (Or.inr h)⟩)
   refine ⟨hl, ?_⟩
   -- the eager value is '' by construction
   rw [encodeUrl_eq] at h
@@ -487,14 +510,44 @@ theorem C09_requote_lone_surrogate (e : Env) : q e Gen.REQUOTER [0xDC80] = [] :=
 /-- compiled backend, NFKC oracle = identity (needed for any non-ASCII authority) -/
 def envC : Env := { b := .c, o := { Oracles.empty with nfkc := fun s => some s } }
 
-/-- a user made of lone surrogates only requotes to "": eager `raw_user = ""`, the twin reads `None`.
-    This is why `GoodNp` asks for a user that does not requote to "".  (Evaluated on the compiled backend;
-    by `C09_requote_lone_surrogate` the pure-Python quoter returns "" as well.) -/
-theorem C09_surrogate_user_counterexample :
+/-- FIXED by commit 2fdb38c (was a defect, `C09_surrogate_user_counterexample`: eager `raw_user = ""`, the
+    twin read `None`).  A user made of lone surrogates only requotes to ""; `encode_url` now caches
+    `(REQUOTER(username) or None)`, i.e. `None`, exactly what the twin reads from the stored netloc.
+    (Evaluated on the compiled backend; by `C09_requote_lone_surrogate` the pure-Python quoter returns ""
+    as well.) -/
+theorem C09_surrogate_user_now_agrees :
     eagerLazy envC ("http://".toStr ++ [0xDC80] ++ "@host/".toStr) = .ok ("host".toStr,
-      some { rawHost := some "host".toStr, explicitPort := none, rawUser := some [], rawPassword := none },
-      .ok { rawHost := some "host".toStr, explicitPort := none, rawUser := none, rawPassword := none }) ∧
-    ¬ GoodAuthority envC ("http://".toStr ++ [0xDC80] ++ "@host/".toStr) :=
+      some { rawHost := some "host".toStr, explicitPort := none, rawUser := none, rawPassword := none },
+      .ok { rawHost := some "host".toStr, explicitPort := none, rawUser := none, rawPassword := none }) :=
+  rfl
+
+/-- … and that input is inside the guard now (the old guard excluded it) -/
+theorem C09_surrogate_user_in_guard :
+    GoodAuthority envC ("http://".toStr ++ [0xDC80] ++ "@host/".toStr) ∧
+    ¬ GoodAuthorityOld envC ("http://".toStr ++ [0xDC80] ++ "@host/".toStr) := by
+  constructor
+  · exact C09_good_authority_of envC _
+      { scheme := "http".toStr, netloc := [0xDC80] ++ "@host".toStr, path := "/".toStr, query := [], fragment := [] }
+      { user := some [0xDC80], password := none, host := some "host".toStr, port := none }
+      rfl rfl
+      ⟨(by intro s hs; cases hs; decide),
+       C09_good_host_regname _ _ (by decide) (by decide) (by decide) (by decide) (by decide)⟩
+  · intro h
+    have := (h
+      { scheme := "http".toStr, netloc := [0xDC80] ++ "@host".toStr, path := "/".toStr, query := [], fragment := [] }
+      { user := some [0xDC80], password := none, host := some "host".toStr, port := none }
+      rfl rfl).1 [0xDC80] rfl
+    exact this.2 (C09_requote_lone_surrogate envC)
+
+/-- what is left of that family: in front of an EMPTY host (a scheme that does not require one) the dropped
+    user leaves the stored netloc empty, so this is `C09_normalises_to_empty_counterexample` again — eager
+    `raw_host = ""`, the twin reads `None`.  This is why the empty-host clause of `GoodNp` asks for a user
+    that is written. -/
+theorem C09_surrogate_user_empty_host_counterexample :
+    eagerLazy envC ("foo://".toStr ++ [0xDC80] ++ "@/x".toStr) = .ok ([],
+      some { rawHost := some [], explicitPort := none, rawUser := none, rawPassword := none },
+      .ok { rawHost := none, explicitPort := none, rawUser := none, rawPassword := none }) ∧
+    ¬ GoodAuthority envC ("foo://".toStr ++ [0xDC80] ++ "@/x".toStr) :=
   ⟨rfl, C09_guard_excludes _ _ _ _ _ rfl (by decide)⟩
 
 /-! ### non-vacuity: concrete inputs inside the guard -/
@@ -507,9 +560,7 @@ example : GoodAuthority envPy "http://Us:p%40w@[::1%eth0]:8080/".toStr :=
     { scheme := "http".toStr, netloc := "Us:p%40w@[::1%eth0]:8080".toStr, path := "/".toStr, query := [], fragment := [] }
     { user := some "Us".toStr, password := some "p%40w".toStr, host := some "::1%eth0".toStr, port := some 8080 }
     rfl rfl
-    ⟨C09_good_user _ _ (by
-        intro s hs; injection hs with hs; subst hs
-        exact ⟨by decide, 85, by decide, by decide⟩),
+    ⟨(by intro s hs; cases hs; decide),
      C09_good_host_ipv6 _ _ [0, 0, 0, 0, 0, 0, 0, 1] (by decide) (by decide) (by decide)⟩
 
 -- (evaluation needs the compiled backend's fast path: the Python byte loop is a well-founded recursion)
@@ -534,9 +585,7 @@ example : GoodAuthority envPy "http://u:@1.2.3.4/".toStr :=
     { scheme := "http".toStr, netloc := "u:@1.2.3.4".toStr, path := "/".toStr, query := [], fragment := [] }
     { user := some "u".toStr, password := some [], host := some "1.2.3.4".toStr, port := none }
     rfl rfl
-    ⟨C09_good_user _ _ (by
-        intro s hs; injection hs with hs; subst hs
-        exact ⟨by decide, 117, by decide, by decide⟩),
+    ⟨(by intro s hs; cases hs; decide),
      C09_good_host_ipv4 _ _ [1, 2, 3, 4] (by decide)⟩
 
 -- empty host with a port, and with a user: the fixed case
@@ -551,10 +600,8 @@ example : GoodAuthority envPy "//u@".toStr :=
     { scheme := [], netloc := "u@".toStr, path := [], query := [], fragment := [] }
     { user := some "u".toStr, password := none, host := none, port := none }
     rfl rfl
-    ⟨C09_good_user _ _ (by
-        intro s hs; injection hs with hs; subst hs
-        exact ⟨by decide, 117, by decide, by decide⟩),
-     Or.inl (by simp)⟩
+    ⟨(by intro s hs; cases hs; decide),
+     Or.inl (C09_good_user_written _ _ "u".toStr rfl (by decide) ⟨117, by decide, by decide⟩)⟩
 
 example : eagerLazy envPy "foo://:80/".toStr = .ok (":80".toStr,
     some { rawHost := some [], explicitPort := some 80, rawUser := none, rawPassword := none },
@@ -566,9 +613,7 @@ example : GoodAuthority envPy "http://u@[v1.A:b]:80/".toStr :=
     { scheme := "http".toStr, netloc := "u@[v1.A:b]:80".toStr, path := "/".toStr, query := [], fragment := [] }
     { user := some "u".toStr, password := none, host := some "v1.A:b".toStr, port := some 80 }
     rfl rfl
-    ⟨C09_good_user _ _ (by
-        intro s hs; injection hs with hs; subst hs
-        exact ⟨by decide, 117, by decide, by decide⟩),
+    ⟨(by intro s hs; cases hs; decide),
      C09_good_host_ascii _ _ (by decide) (by decide)⟩
 
 -- … the stored netloc keeps the brackets, the cached host is the lower-cased text without them
